@@ -12,10 +12,32 @@ def run(ctx):
             ["--leaf", "4096", "--final-download=false", "--batch", "1", "--apply", "--deep=false"]]
     if ctx.thorough:
         cfgs += [["--leaf", "64", "--batch", "1", "--final-download=false"], ["--leaf", "64", "--batch", "2", "--crc", "--final-download=false"]]
-    results = vlib.parallel(mc.replay_jobs(ctx, beh, cfgs), max_workers=4)
+    # label names: LabelNames.tla (accepted names are listed, resolved and listed under every prefix of theirs,
+    # and only there); TLC enumerates every sequence of one or two names of a pool (documented alphabet and
+    # hostile names) and samples longer ones; the implementation decides what it accepts
+    import os
+    st = vlib.run_tlc(ctx, "MC_LabelNames.tla", "MC_LabelNames.cfg", workers=2, timeout=600)
+    vlib.require_tlc_ok(st, "MC_LabelNames")
+    cases = os.path.join(ctx.work, "labelnames.ndjson")
+    g = vlib.run_tlc(ctx, "Gen_LabelNames.tla", "Gen_LabelNames.cfg", workers=1, timeout=600,
+                     defines={'"labelnames.ndjson"': '"%s"' % cases})
+    vlib.require_tlc_ok(g, "Gen_LabelNames")
+    g2 = vlib.run_tlc(ctx, "Gen_LabelNames.tla", "Gen_LabelNames.cfg", workers=1, timeout=600, seed=ctx.seed,
+                      simulate="num=%d" % (2000 if ctx.thorough else 150), depth=3,
+                      defines={'"labelnames.ndjson"': '"%s"' % cases, "Sample = FALSE": "Sample = TRUE"})
+    if g2["timed_out"]:
+        raise vlib.Infra("Gen_LabelNames sampling timed out")
+    jobs = mc.replay_jobs(ctx, beh, cfgs)
+    for k, extra in enumerate([[], ["--batch", "1", "--crc"]] if not ctx.thorough else [[], ["--batch", "1", "--crc"], ["--batch", "2"]]):
+        jobs.append(lambda k=k, extra=extra: vlib.replay(ctx, "labelnames", cases, "names%d" % k,
+                                                         ["--seed", str(ctx.seed), "--work", ctx.sub("ln%d" % k)] + extra))
+    results = vlib.parallel(jobs, max_workers=6)
     return mc.finish(ctx, results,
                      "behaviour = random walk over label set / overwrite / delete, bundle deletes, repo delete and rename "
                      "over prefix-related repositories (r1, r10, r1-x); after every step every label is resolved and every "
                      "repository's labels are listed and compared with Meta!GetLabelOp / ListLabelsOp, and the bundle "
-                     "objects are compared with the post-state (a label set changes nothing else)",
+                     "objects are compared with the post-state (a label set changes nothing else); label-name cases = sequences of "
+                     "1-2 (sampled: 3-5) names set in one repository, a neighbour holding the first name too: accepted names "
+                     "resolve, are listed once, and are listed under every prefix of theirs and only there, also after one "
+                     "of them is deleted",
                      [])
